@@ -1,6 +1,7 @@
 """C03 — PUS-C telemetry, any timestamp length; service-17 wrapper"""
 import random
-from typing import Iterator
+import struct
+from typing import Dict, Iterator, Optional
 
 import core
 from core import Case, Prop, SelfCheckFailure
@@ -12,6 +13,7 @@ from spacepackets.ecss.pus_17_test import Service17Tm
 from spacepackets.ecss import check_pus_crc
 from spacepackets.crc import CRC16_CCITT_FUNC
 from props.c01 import _fields as sph_fields
+from props.c02 import crc_ccitt, fit_bits, spread
 
 
 def _tm(a):
@@ -122,6 +124,48 @@ def with_crc(body: bytes) -> bytes:
     return body + bytes([c >> 8, c & 0xFF])
 
 
+def spec_tm(a) -> bytes:
+    """the octets the statement prescribes, without the trailer"""
+    ts, src = unhx(a["timestamp"]), unhx(a["data"])
+    return (struct.pack("!HHH", a["version"] << 13 | 0x0800 | a["apid"], 0xC000 | a["count"], 8 + len(ts) + len(src))
+            + bytes([0x20 | a["time_ref"], a["service"], a["subservice"]]) + struct.pack("!HH", a["msg_counter"], a["dest_id"])
+            + ts + src)
+
+
+TM_FREE = {
+    "sph": [[("count", 14), ("apid", 11), ("version", 3)], [("apid", 11), ("count", 14)]],
+    "fixed-secondary-header": [[("dest_id", 16)], [("msg_counter", 16)], [("subservice", 8), ("service", 8)]],
+    "headers": [[("msg_counter", 16)], [("msg_counter", 16)], [("dest_id", 16)], [("count", 14), ("apid", 11)],
+                [("time_ref", 4), ("subservice", 8), ("service", 8)]],
+}
+S17_FREE = [[("dest_id", 16)], [("count", 14), ("apid", 11)], [("time_ref", 4), ("subservice", 8), ("version", 3), ("apid", 11)]]
+
+
+def zero_crc_tm(rng, stage: str, s17: bool = False, ts: Optional[int] = None, dlen: Optional[int] = None) -> Optional[Dict]:
+    """arguments of a telemetry packet with non-empty source data for which the CRC-16 of the octets up to the end of
+    `stage` is exactly 0x0000: 'sph' (6 octets), 'fixed-secondary-header' (13), 'headers' (13 + timestamp), 'body'
+    (everything before the trailer, which is then 0000). s17: service 17, message counter 0 (the service-17 wrapper)"""
+    a = rand_args(rng, ts=ts, dlen=rng.choice([1, 1, 2, 3, 4, 7, 16, 40, rng.randint(1, 300)]) if dlen is None else dlen)
+    if s17:
+        a.update(service=17, msg_counter=0)
+    n_ts = len(a["timestamp"]) // 2
+    if stage == "body":
+        body = spec_tm(a)
+        if len(a["data"]) // 2 < 2:
+            return None
+        a["data"] = hx(body[13 + n_ts:-2] + crc_ccitt(body[:-2]).to_bytes(2, "big"))
+        return a
+    upto = {"sph": 6, "fixed-secondary-header": 13, "headers": 13 + n_ts}[stage]
+    if stage == "headers" and n_ts >= 2 and rng.random() < 0.3:
+        # (the timestamp is opaque octets: its last two make the running checksum zero)
+        body = spec_tm(a)
+        a["timestamp"] = hx(body[13:upto - 2] + crc_ccitt(body[:upto - 2]).to_bytes(2, "big"))
+        return a
+    free = rng.choice(TM_FREE["sph"] if stage == "sph" else (S17_FREE if s17 else TM_FREE[stage]))
+    v = fit_bits(lambda v: crc_ccitt(spec_tm(spread(a, free, v))[:upto]), sum(b for _, b in free))
+    return None if v is None else spread(a, free, v)
+
+
 class C03(Prop):
     id = "C03"
     title = "PUS-C telemetry"
@@ -229,6 +273,50 @@ class C03(Prop):
                 buf = body + bytes(b[total:])
                 exp = "invalid" if total < 15 + ts else "any"
                 yield Case({"op": "tm_unpack", "raw": hx(buf), "ts_len": ts}, exp, tag="declared-length-crafted")
+        # the same with the other bits of the first octet varied (secondary-header flag clear, packet type TC, any
+        # version), the short "packet" being followed by a further valid telemetry packet
+        for i, ts in enumerate(list(range(0, 17)) if thorough else [0, 1, 2, 7, 16, rng.randint(3, 12)]):
+            a = rand_args(rng, ts, rng.randint(0, 6))
+            nxt = with_crc(spec_tm(rand_args(rng, ts, rng.choice([0, 0, 1, 5]))))
+            first = bytearray(with_crc(spec_tm(a)))
+            for name, o0 in (("no-sec-header-flag", first[0] & ~0x08), ("type-tc", first[0] | 0x10),
+                             ("first-octet", (first[0] & 0x07) | rng.randrange(32) << 3)):
+                for L in range(0, 31):
+                    total = L + 7
+                    if total >= 15 + ts and (i + L) % 4:
+                        continue
+                    b = bytearray(first)
+                    b[0], b[4], b[5] = o0 & 0xFF, 0, L
+                    b = b[:total]
+                    b += bytes(total - len(b))
+                    if total == 8:
+                        # the CRC octets are where the PUS version nibble is read: look for an APID that makes it 2
+                        for lo in range(256):
+                            if crc_ccitt(bytes(b[:1]) + bytes([lo]) + bytes(b[2:6])) >> 12 == 2:
+                                b[1] = lo
+                                break
+                    buf = with_crc(bytes(b[: total - 2])) + nxt + (b"" if i % 3 else rbytes(rng, 5))
+                    yield Case({"op": "tm_unpack", "raw": hx(buf), "ts_len": ts}, "invalid" if total < 15 + ts else "any",
+                               tag="declared-length-crafted-" + name)
+        # every place at which a checksum computed in pieces can stand at 0x0000: after the primary header, after the
+        # fixed part of the secondary header, after the timestamp (then continuing over non-empty source data), and at
+        # the very end
+        for i in range(400 if thorough else 40):
+            for stage in ("sph", "fixed-secondary-header", "headers", "body"):
+                big = 2000 if (i == 7 and stage == "headers") else None
+                a = zero_crc_tm(rng, stage, dlen=big)
+                if a is not None:
+                    yield Case({"op": "tm_pack", **a}, "valid", tag="crc-zero-after-" + stage)
+                    if i % 4 == 0:
+                        raw = with_crc(spec_tm(a))
+                        yield Case({"op": rng.choice(["tm_unpack", "s17_unpack"]), "raw": hx(raw + rng.choice([b"", rbytes(rng, 2), raw])),
+                                    "ts_len": len(a["timestamp"]) // 2}, "valid", tag="crc-zero-after-" + stage)
+                if i % 2 == 0:
+                    b = zero_crc_tm(rng, stage, s17=True)
+                    if b is not None:
+                        for k in ("service", "msg_counter"):
+                            b.pop(k)
+                        yield Case({"op": "s17_pack", **b}, "valid", tag="crc-zero-after-" + stage)
         for _ in range(20000 if thorough else 3000):
             ln = rng.randint(0, 48)
             b = bytearray(rbytes(rng, ln))
